@@ -7,7 +7,18 @@ import Oracle.Util
    ret vol <limitGB> <counter> <segs>         → del=<sorted keys marked by the volume pass | ->
    ret int <cut> <nowMs> <hours> <segs>       → blob=… files=… mem=… pq=<pqid>/<key>,… sm=…   final store after a pass cut
                                                  after <cut> micro-steps followed by a full pass (initially every seg is in every store)
-   ret e2e <hours> <segs>                     → same as `ret time` with now = 2000000000000 (kind l only; latest = offset from now, see harness) -/
+   ret e2e <hours> <segs>                     → same as `ret time` with now = 2000000000000 (kind l only; latest = offset from now, see harness)
+   suite "retsm" (the segmeta.json rewrite):
+   sm <file> <steps>    → ret=<r>,<r>… file=<missing | number of lines> h=<hash of the lines' uids> head=<≤5 uids> tail=<≤3 uids> rd=<entries ReadLocalSegmeta finds>:<hash>
+     file  ::= missing:<nidx> | <n>:<nidx>:<pad>:<specials>       entries 0..n-1 (key i, index i % nidx, uid i) in file order
+     specials ::= - | item,item…   item ::= <pos>p<len>   entry pos is a line of exactly len bytes (1024 ≤ len)
+                                          | <pos>j<len>   a junk line of len bytes (0 or ≥ 64) before entry pos (pos ≤ n), uid 3000000+item number (len 0: 3999999)
+                                          | <pos>d<k>     a second entry with key k < n (index k % nidx) before entry pos, uid 1000000+item number
+     steps ::= step/step…   step ::= rm:<victims>:<index | ->  |  add:<key>      (the added line: uid 2000000+step number)
+     victims ::= nil | e | v+v…   v ::= k<a> | m<mod>.<rem> (keys < n) | r<a>.<b> (a ≤ key < b) | x<a> (a key GetSegBaseDirFromFilename rejects)
+   mm <file> <steps>    → file=<missing | number of lines> h=… head=… tail=… rd=<entries of the map ReadMetricsMeta returns>:<hash of their sorted uids>:<ok|err>
+     the same file grammar for metricmeta.json (key i = MSegmentDir i; index = age class: 0 = newest event in 2001, else in 2100; padding = tag keys)
+     steps ::= step/step…   step ::= rm:<victims> (RemoveMetricsSegments)  |  pass (DoRetentionBasedDeletion with 1 h retention: age class 0 is expired) -/
 namespace Oracle.C14
 open SigModel.Retention Oracle
 
@@ -131,6 +142,190 @@ def retE2E (args : List String) : String :=
     | _, _ => "bad-op"
   | _ => "bad-op"
 
+/-! ### suite "retsm" -/
+
+def smSplitLetter (s : String) : Option (String × Char × String) :=
+  let cs := s.toList
+  let a := cs.takeWhile Char.isDigit
+  match cs.drop a.length with
+  | c :: r => if a.isEmpty then none else some (String.ofList a, c, String.ofList r)
+  | [] => none
+
+inductive SmItem where
+  | pad (pos len : Nat)
+  | junk (pos len : Nat)
+  | dup (pos k : Nat)
+
+def smMaxLen : Nat := 2200000
+
+def parseSmItem (n : Nat) (s : String) : Option SmItem :=
+  match smSplitLetter s with
+  | some (a, c, b) =>
+    match natLt a (n + 1), c with
+    | some pos, 'p' => if pos < n then (natLt b (smMaxLen + 1)).bind (fun l => if 1024 ≤ l then some (.pad pos l) else none) else none
+    | some pos, 'j' => (natLt b (smMaxLen + 1)).bind (fun l => if l = 0 ∨ 64 ≤ l then some (.junk pos l) else none)
+    | some pos, 'd' => (natLt b n).map (fun k => .dup pos k)
+    | _, _ => none
+  | none => none
+
+/-- the lines of the generated file -/
+def smBuild (n nidx pad : Nat) (items : List SmItem) : List SmLine :=
+  let numbered := items.zipIdx
+  let before (i : Nat) : List SmLine := numbered.filterMap (fun (it, j) =>
+    match it with
+    | .junk p l => if p = i then some (SmLine.junk (if l = 0 then 3999999 else 3000000 + j) l) else none
+    | .dup p k => if p = i then some (SmLine.entry k (k % nidx) (1000000 + j) (300 + pad)) else none
+    | .pad _ _ => none)
+  let lenOf (i : Nat) : Nat :=
+    match items.findSome? (fun it => match it with | .pad p l => if p = i then some l else none | _ => none) with
+    | some l => l
+    | none => 300 + pad
+  ((List.range n).flatMap (fun i => before i ++ [SmLine.entry i (i % nidx) i (lenOf i)])) ++ before n
+
+/-- file, n, nidx -/
+def parseSmFile (s : String) : Option (SmFile × Nat × Nat) :=
+  match s.splitOn ":" with
+  | [n, nidx, pad, sp] =>
+    match natLt n 20001, natLt nidx 10, natLt pad 4097 with
+    | some n, some nidx, some pad =>
+      if nidx = 0 then none else
+      let items := if sp = "-" then some [] else (sp.splitOn ",").mapM (parseSmItem n)
+      match items with
+      | some items =>
+        if items.length > 40 then none
+        else if !nodupKeys (items.filterMap (fun it => match it with | .pad p _ => some p | _ => none)) then none
+        else some (.lines (smBuild n nidx pad items), n, nidx)
+      | none => none
+    | _, _, _ => none
+  | ["missing", nidx] => (natLt nidx 10).bind (fun k => if k = 0 then none else some (.missing, 0, k))
+  | _ => none
+
+/-- one victim item: membership predicate, and whether it contributes a key `GetSegBaseDirFromFilename` accepts -/
+def parseSmV (n : Nat) (s : String) : Option ((Nat → Bool) × Bool) :=
+  match s.toList with
+  | c :: r =>
+    let body := String.ofList r
+    match c, body.splitOn "." with
+    | 'k', [a] => (natLt a 30000).map (fun a => (fun k => k == a, true))
+    | 'x', [a] => (natLt a 30000).map (fun _ => (fun _ => false, false))
+    | 'm', [m, q] =>
+      match natLt m 30000, natLt q 30000 with
+      | some m, some q => if m = 0 ∨ q ≥ m then none else some (fun k => decide (k < n) && k % m == q, decide (q < n))
+      | _, _ => none
+    | 'r', [a, b] =>
+      match natLt a 30000, natLt b 30001 with
+      | some a, some b => if b < a then none else some (fun k => decide (a ≤ k) && decide (k < b), decide (a < b))
+      | _, _ => none
+    | _, _ => none
+  | [] => none
+
+def parseSmVictims (n : Nat) (s : String) : Option (Bool × (Nat → Bool) × Bool) :=
+  if s = "nil" then some (true, fun _ => false, false)
+  else if s = "e" then some (false, fun _ => false, false)
+  else
+    match (s.splitOn "+").mapM (parseSmV n) with
+    | some vs => if vs.length > 12 then none else some (false, fun k => vs.any (fun v => v.1 k), vs.any (·.2))
+    | none => none
+
+inductive SmStep where
+  | rm (a : SmArgs)
+  | add (key : Nat)
+
+def parseSmStep (n : Nat) (s : String) : Option SmStep :=
+  match s.splitOn ":" with
+  | ["rm", v, ix] =>
+    match parseSmVictims n v with
+    | some (nilMap, victim, anyValid) =>
+      if ix = "-" then some (.rm { nilMap := nilMap, victim := victim, anyValid := anyValid })
+      else (natLt ix 10).map (fun i => .rm { nilMap := nilMap, victim := victim, anyValid := anyValid, index := some i })
+    | none => none
+  | ["add", k] => (natLt k 30000).map .add
+  | _ => none
+
+def smHash (us : List Nat) : Nat := us.foldl (fun h u => (h * 1000003 + u + 1) % 2147483647) 7
+
+def showSmRet : SmRet → String
+  | .nil => "nil"
+  | .empty => "empty"
+  | .dirs => "dirs"
+
+def showUids (us : List Nat) : String := if us.isEmpty then "-" else String.intercalate "," (us.map toString)
+
+def smRun (nidx pad : Nat) (f : SmFile) (steps : List SmStep) : SmFile × List String :=
+  let r := steps.zipIdx.foldl (fun (acc : SmFile × List String) (st, j) =>
+    match st with
+    | .rm a => let (f', rt) := smRemove a acc.1; (f', showSmRet rt :: acc.2)
+    | .add k => (smAddOrReplace k (k % nidx) (2000000 + j) (300 + pad) acc.1, "add" :: acc.2)) (f, [])
+  (r.1, r.2.reverse)
+
+def retSm (args : List String) : String :=
+  match args with
+  | [file, steps] =>
+    match parseSmFile file with
+    | some (f, n, nidx) =>
+      let pad := match file.splitOn ":" with | [_, _, p, _] => p.toNat?.getD 0 | _ => 0
+      let sts := steps.splitOn "/"
+      if sts.length > 6 then "bad-op" else
+      match sts.mapM (parseSmStep n) with
+      | some sts =>
+        let (f', rets) := smRun nidx pad f sts
+        let rd := (smEntries f').map SmLine.uid
+        let fileS := match f' with
+          | .missing => "file=missing h=- head=- tail=-"
+          | .lines ls =>
+            let us := ls.map SmLine.uid
+            s!"file={ls.length} h={smHash us} head={showUids (us.take 5)} tail={showUids ((us.drop (us.length - 3)))}"
+        s!"ret={String.intercalate "," rets} {fileS} rd={rd.length}:{smHash rd}"
+      | none => "bad-op"
+    | none => "bad-op"
+  | _ => "bad-op"
+
+/-! ### suite "retsm", metricmeta.json -/
+
+inductive MmStep where
+  | rm (nilMap : Bool) (victim : Nat → Bool)
+  | pass
+
+def parseMmStep (n : Nat) (s : String) : Option MmStep :=
+  match s.splitOn ":" with
+  | ["pass"] => some .pass
+  | ["rm", v] => (parseSmVictims n v).map (fun (nilMap, victim, _) => .rm nilMap victim)
+  | _ => none
+
+/-- the map `ReadMetricsMeta` returns, as uids: the last entry of every key, sorted -/
+def mmMapUids (es : List SmLine) : List Nat :=
+  let lastOf := es.filter (fun l => match (es.filter (fun m => m.key == l.key)).getLast? with
+    | some m => m.uid == l.uid
+    | none => false)
+  (lastOf.map SmLine.uid).mergeSort (fun a b => decide (a ≤ b))
+
+def retMm (args : List String) : String :=
+  match args with
+  | [file, steps] =>
+    match parseSmFile file with
+    | some (f, n, _) =>
+      let sts := steps.splitOn "/"
+      if sts.length > 6 then "bad-op" else
+      match sts.mapM (parseMmStep n) with
+      | some sts =>
+        let f' := sts.foldl (fun acc st =>
+          match st with
+          | .rm nilMap victim => mmRemove nilMap victim acc
+          | .pass => mmPass (fun l => l.idx == 0) acc) f
+        let rd := mmRead f'
+        let us := mmMapUids rd.1
+        -- an empty metricmeta.json and a missing one are the same thing (ReadMetricsMeta opens it with O_CREATE)
+        let fileS := match f' with
+          | .missing => "file=missing h=- head=- tail=-"
+          | .lines [] => "file=missing h=- head=- tail=-"
+          | .lines ls =>
+            let us := ls.map SmLine.uid
+            s!"file={ls.length} h={smHash us} head={showUids (us.take 5)} tail={showUids ((us.drop (us.length - 3)))}"
+        s!"{fileS} rd={us.length}:{smHash us}:{if rd.2 then "err" else "ok"}"
+      | none => "bad-op"
+    | none => "bad-op"
+  | _ => "bad-op"
+
 def handle (cmd : String) (args : List String) : Option String :=
   match cmd, args with
   | "ret", "time" :: r => some (retTime r)
@@ -138,5 +333,7 @@ def handle (cmd : String) (args : List String) : Option String :=
   | "ret", "int" :: r => some (retInt r)
   | "ret", "e2e" :: r => some (retE2E r)
   | "ret", _ => some "bad-op"
+  | "sm", r => some (retSm r)
+  | "mm", r => some (retMm r)
   | _, _ => none
 end Oracle.C14
